@@ -30,3 +30,5 @@ def run(ctx):
     storage.vanish_effects(ctx, s)
     storage.reopen_validates_marker(ctx, s)
     storage.read_bound_by_marker(ctx, s)
+    storage.no_direct_file_writes(ctx, s)
+    storage.recorded_length_is_file_length(ctx, s)
